@@ -160,8 +160,8 @@ def check_open(rec, sub, pck, ref, desc, path, limit, header_only, maxmins, pars
             lo, hi = ref.boxes[lv][b]
             if tuple(int(v) for v in c["indexes"][b][0]) != lo or tuple(int(v) for v in c["indexes"][b][1]) != hi:
                 bad("indexes", "level %d box %d: %r" % (lv, b, c["indexes"][b]))
-            expf = os.path.join(path, "Level_%d" % lv, pl.files[b])
-            if os.path.normpath(c["files"][b]) != os.path.normpath(expf):
+            expf = os.path.join(pl.dir, pl.files[b])
+            if os.path.realpath(c["files"][b]) != os.path.realpath(expf):
                 bad("files", "level %d box %d: %r != %r" % (lv, b, c["files"][b], expf))
             if int(c["offsets"][b]) != pl.offsets[b]:
                 bad("offsets", "level %d box %d: %r != %r" % (lv, b, c["offsets"][b], pl.offsets[b]))
@@ -220,6 +220,28 @@ def run_case(case, workdir):
                     check_open(rec, sub, val, ref, desc, p, limit, header_only, maxmins, parsed)
                 except Exception as e:
                     rec.fail("attribute_access", sub, exc_text(e))
+    # the same plotfile named otherwise (trailing slash, ./x, relative to the working directory, via a symbolic link) and
+    # the level limit given as a NumPy integer
+    import numpy as np
+    os.chdir(workdir)
+    link = os.path.join(workdir, "link_to_plt")
+    os.symlink(path, link)
+    rel = os.path.relpath(path, workdir)
+    for form, p, limit in (("trailing_slash", path + "/", None), ("dot_relative", "./" + rel, nlev - 1), ("relative", rel, 0), ("relative_slash", rel + "/", None),
+                           ("symlink", link, None), ("numpy_limit", path, np.int64(nlev - 1)), ("numpy_limit_0", path, np.int32(0))):
+        sub = {"path_form": form, "limit_level": int(limit) if limit is not None else None, "header_only": False, "maxmins": True}
+        with vpool.controlled():
+            st, val = call(lambda: PlotfileCooker(p, limit_level=limit, maxmins=True))
+        rec.exe([dh, "form", form], nontrivial=True)
+        if st == "exc":
+            rec.fail("open_raised", sub, exc_text(val))
+            continue
+        if list(val.fields.keys()) != first_keys:
+            rec.fail("fields_differ_between_openings", sub, "%r" % list(val.fields.keys()))
+        try:
+            check_open(rec, sub, val, ref, desc, p, None if limit is None else int(limit), False, True, parsed)
+        except Exception as e:
+            rec.fail("attribute_access", sub, exc_text(e))
     rec.sample({"desc": desc, "opens": "limit in None,0..finest+1 x header_only x maxmins"})
     return rec.result()
 
